@@ -30,7 +30,10 @@ use trusttunnel::authentication::{Authenticator, Source, Status};
 use trusttunnel::client_config;
 use trusttunnel::core::Core;
 use trusttunnel::log_utils::IdChain;
-use trusttunnel::settings::{Settings, TlsHostsSettings};
+use trusttunnel::authentication::registry_based::Client;
+use trusttunnel::settings::{
+    Http1Settings, Http2Settings, ListenProtocolSettings, QuicSettings, ReverseProxySettings, Settings, TlsHostInfo, TlsHostsSettings,
+};
 use trusttunnel::shutdown::Shutdown;
 use ttv::*;
 
@@ -268,6 +271,9 @@ fn run_vec(c: &mut Ctx, v: &Value) {
                 if u != Some(name.as_str()) || !p.map(|p| allowed.contains(p)).unwrap_or(false) {
                     c.rep.violation_with(format!("creds:{}:export", class), "the exported client configuration does not carry the pair written in the credentials file",
                                          || detail_vec(v, &text, json!({"name": name, "exported_username": u, "exported_password": p, "allowed_passwords": allowed})));
+                } else if !passes(&auth, u.unwrap(), p.unwrap()) || !accept.contains(&(u.unwrap().to_string(), p.unwrap().to_string())) {
+                    c.rep.violation_with(format!("creds:{}:export-not-accepted", class), "the exported pair is not one the endpoint's authenticator accepts",
+                                         || detail_vec(v, &text, json!({"name": name, "exported_username": u, "exported_password": p})));
                 }
             }
             Err(e) => {
@@ -282,6 +288,26 @@ fn run_vec(c: &mut Ctx, v: &Value) {
                 None => c.rep.violation_with(format!("creds:{}:export-layout", class), "username/password segment not found in the exported configuration",
                                              || detail_vec(v, &text, json!({"doc": doc}))),
             }
+        }
+    }
+    // (4) a name that is not configured (TLC lists the look-alikes: other letter case, padding) gets no export at all.
+    // build() refuses by panicking ("There is no user config ..."), which ends `main` before anything is printed.
+    for nm in v["exportsRefused"].as_array().map(|a| a.as_slice()).unwrap_or(&[]) {
+        let name = s_of(nm);
+        if got.iter().any(|(u, _)| *u == name) {
+            continue; // only when (1) already failed
+        }
+        c.rep.eval();
+        c.rep.count("exports_refused_probes", 1);
+        let clients = settings.get_clients();
+        let hosts = &c.env.hosts;
+        if let Ok(doc) = catch(|| client_config::build(&name, vec!["192.0.2.7:443".parse().unwrap()], clients, hosts).compose_toml()) {
+            let t = toml::from_str::<toml::Value>(&doc).ok();
+            let eu = t.as_ref().and_then(|t| t.get("username")).and_then(|x| x.as_str()).map(str::to_string);
+            let ep = t.as_ref().and_then(|t| t.get("password")).and_then(|x| x.as_str()).map(str::to_string);
+            c.rep.violation_with(format!("creds:{}:export-unconfigured-name", class),
+                                 "a client configuration was exported for a user name that is not configured (it carries another user's password)",
+                                 || detail_vec(v, &text, json!({"requested_name": name, "exported_username": eu, "exported_password": ep})));
         }
     }
     if canary {
@@ -341,6 +367,107 @@ fn run_row(c: &mut Ctx, r: &Value) {
     }
     if c.rep.samples.len() < 2 {
         c.rep.sample(json!({"row": id, "expected": expect, "observed": observed, "how": how}));
+    }
+    // the same settings through the builder API (SettingsBuilder::build runs Settings::validate)
+    if r["rpBuildable"].as_bool().unwrap_or(false) && !c.totality {
+        c.rep.eval();
+        let want = r["expectSettings"].as_str().unwrap();
+        let built = catch(|| build_settings(r));
+        let observed = match &built {
+            Ok(Ok(())) => "start",
+            _ => "refuse",
+        };
+        c.rep.count(&format!("builder_rows_{}", observed), 1);
+        if observed != want {
+            let settings_causes: Vec<&String> = causes.iter().filter(|x| !x.starts_with("hosts-")).collect();
+            c.rep.violation_with(format!("start:builder:{}:{}", if want == "refuse" { "not-refused" } else { "refused" },
+                                         settings_causes.iter().map(|x| x.as_str()).collect::<Vec<_>>().join("+")),
+                                 format!("Settings::builder()..build() differs from the table: expected {}, observed {}", want, observed),
+                                 || json!({"kind": "start-builder", "row": id, "expected": want, "observed": observed, "result": format!("{:?}", built)}));
+        }
+    }
+}
+
+/// the row's settings expressed through the public builders
+fn build_settings(r: &Value) -> Result<(), String> {
+    let mut b = Settings::builder();
+    let listen = r["listenText"].as_str().unwrap();
+    if !listen.is_empty() {
+        b = b.listen_address(listen).map_err(|e| e.to_string())?;
+    }
+    let has = |p: &str| r["protos"].as_array().unwrap().iter().any(|x| x == p);
+    b = b.listen_protocols(ListenProtocolSettings {
+        http1: has("http1").then(|| Http1Settings::builder().build()),
+        http2: has("http2").then(|| Http2Settings::builder().build()),
+        quic: has("quic").then(|| QuicSettings::builder().build()),
+    });
+    if r["creds"] == json!("one") {
+        b = b.clients(vec![Client { username: ROW_USER.into(), password: ROW_PASS.into() }]);
+    }
+    if r["rp"] != json!("absent") {
+        let rp = ReverseProxySettings::builder()
+            .server_address(r["rpAddr"].as_str().unwrap()).map_err(|e| e.to_string())?
+            .path_mask(r["rpMask"].as_str().unwrap().to_string())
+            .build().map_err(|e| format!("{:?}", e))?;
+        b = b.reverse_proxy(rp);
+    }
+    b.build().map(|_| ()).map_err(|e| format!("{:?}", e))
+}
+
+/// One hosts file on its own: the builder, and a reload into a running Core
+fn run_hosts(c: &mut Ctx, h: &Value) {
+    let d = c.env.dir.to_str().unwrap().to_string();
+    let name = h["name"].as_str().unwrap().to_string();
+    let cls = h["cls"].as_str().unwrap().to_string();
+    let want = h["expect"].as_str().unwrap();
+    logcap::set_scenario(&format!("hosts:{}", name));
+    if want == "refuse" {
+        c.rep.nontrivial(format!("hosts:{}", name));
+    }
+    let det = |path: &str, obs: &str, how: String| json!({"kind": "hosts", "path": path, "hosts": name, "hosts_toml": h["hoststoml"], "expected": want, "observed": obs, "how": how,
+                                                          "dup": h["dup"], "unloadable": h["unloadable"]});
+    // (a) TlsHostsSettings::builder()
+    c.rep.eval();
+    let list = |sect: &str| -> Vec<TlsHostInfo> {
+        h["hs"].as_array().unwrap().iter().filter(|x| x["sect"] == json!(sect)).map(|x| TlsHostInfo {
+            hostname: x["name"].as_str().unwrap().to_string(),
+            cert_chain_path: format!("{}/{}", d, x["cert"].as_str().unwrap()),
+            private_key_path: format!("{}/{}", d, x["key"].as_str().unwrap()),
+            allowed_sni: vec![],
+        }).collect()
+    };
+    let built = catch(|| TlsHostsSettings::builder().main_hosts(list("main_hosts")).ping_hosts(list("ping_hosts"))
+        .speedtest_hosts(list("speedtest_hosts")).reverse_proxy_hosts(list("reverse_proxy_hosts")).build().map(|_| ()).map_err(|e| format!("{:?}", e)));
+    let obs = if matches!(built, Ok(Ok(()))) { "accept" } else { "refuse" };
+    c.rep.count(&format!("hosts_builder_{}", obs), 1);
+    if obs != want {
+        c.rep.violation_with(format!("hosts:builder:{}:{}", if want == "refuse" { "not-refused" } else { "refused" }, cls),
+                             "TlsHostsSettings::builder()..build() differs from the specification",
+                             || det("builder", obs, format!("{:?}", built)));
+    }
+    // (b) reload: a running Core (valid settings, all protocols, reverse proxy configured so that every list is loaded)
+    c.rep.eval();
+    let text = h["hoststoml"].as_str().unwrap().replace("@D@", &d);
+    let vpn = format!("listen_address = \"127.0.0.1:8443\"\n[reverse_proxy]\nserver_address = \"127.0.0.1:8080\"\npath_mask = \"/api\"\n[listen_protocols]\n[listen_protocols.http1]\n[listen_protocols.http2]\n[listen_protocols.quic]\n");
+    let good_hosts = format!("[[main_hosts]]\nhostname = \"h1\"\ncert_chain_path = \"{0}/cert.pem\"\nprivate_key_path = \"{0}/key.pem\"\n", d);
+    let reloaded = catch(|| -> Result<(), String> {
+        let settings: Settings = toml::from_str(&vpn).map_err(|e| format!("fixture vpn.toml: {}", e))?;
+        let tls: TlsHostsSettings = toml::from_str(&good_hosts).map_err(|e| format!("fixture hosts.toml: {}", e))?;
+        let core = Core::new(settings, None, tls, Shutdown::new()).map_err(|e| format!("fixture core: {:?}", e))?;
+        // main.rs SIGHUP task: parse, then Core::reload_tls_hosts_settings
+        let new: TlsHostsSettings = toml::from_str(&text).map_err(|e| format!("reload-parse: {}", e))?;
+        core.reload_tls_hosts_settings(new).map_err(|e| format!("reload: {}", e))
+    });
+    let obs = match &reloaded {
+        Ok(Ok(())) => "accept",
+        Ok(Err(e)) if e.starts_with("fixture") => panic!("harness fixture broken: {}", e),
+        _ => "refuse",
+    };
+    c.rep.count(&format!("hosts_reload_{}", obs), 1);
+    if obs != want {
+        c.rep.violation_with(format!("hosts:reload:{}:{}", if want == "refuse" { "not-refused" } else { "refused" }, cls),
+                             "Core::reload_tls_hosts_settings differs from the specification",
+                             || det("reload", obs, format!("{:?}", reloaded)));
     }
 }
 
@@ -475,7 +602,7 @@ fn run_totality(c: &mut Ctx, vectors: &[String]) {
 
 fn run_bin(bin: &str, args: &[&str], cwd: &Path, limit_s: u64) -> Result<(Option<i32>, String, String), String> {
     use std::process::{Command, Stdio};
-    let mut child = Command::new(bin).args(args).current_dir(cwd).stdin(Stdio::null()).stdout(Stdio::piped()).stderr(Stdio::piped())
+    let mut child = Command::new(bin).args(args).current_dir(cwd).env("RUST_BACKTRACE", "0").stdin(Stdio::null()).stdout(Stdio::piped()).stderr(Stdio::piped())
         .spawn().map_err(|e| format!("spawn {}: {}", bin, e))?;
     let t0 = std::time::Instant::now();
     loop {
@@ -574,6 +701,26 @@ fn run_wizard_vec(c: &mut Ctx, v: &Value, wizard: &str, endpoint: Option<&str>) 
                                                        || det(json!({"exit": code, "stdout": so.chars().take(600).collect::<String>(), "stderr": se.chars().take(600).collect::<String>(), "credentials_toml": creds_text}))),
             Err(e) => c.rep.note(format!("endpoint binary could not be run: {}", e)),
         }
+        // ... and refuses a look-alike of the configured name (TLC lists them) without printing any configuration
+        for nm in v["exportsRefused"].as_array().map(|a| a.as_slice()).unwrap_or(&[]).iter().take(1) {
+            let near = s_of(nm);
+            if near == u || near.starts_with('-') {
+                continue;
+            }
+            c.rep.eval();
+            match run_bin(ep, &["vpn.toml", "hosts.toml", "-c", &near, "-a", "192.0.2.7"], &wd, 60) {
+                Ok((code, so, _)) => {
+                    c.rep.count("endpoint_refused_exports", 1);
+                    let printed = toml::from_str::<toml::Value>(&so).ok().and_then(|t| t.get("password").and_then(|x| x.as_str()).map(str::to_string));
+                    if code == Some(0) || printed.is_some() {
+                        c.rep.violation_with(format!("wizard:{}:endpoint-export-unconfigured-name", class),
+                                             "trusttunnel_endpoint -c printed a configuration for a user name that is not configured",
+                                             || det(json!({"requested_name": near, "exit": code, "printed_password": printed})));
+                    }
+                }
+                Err(e) => c.rep.note(format!("endpoint binary could not be run: {}", e)),
+            }
+        }
     }
 }
 
@@ -632,6 +779,9 @@ fn main() {
                         }
                     }
                 }
+            }
+            for h in read_tagged(f, "HOSTS") {
+                run_hosts(&mut c, &h);
             }
             for r in read_tagged(f, "ROW") {
                 run_row(&mut c, &r);
